@@ -301,6 +301,14 @@ func cmdCheck(args []string) int {
 				}
 			}
 		}
+		if ct := cc.cs.ByKey[r.Key]; ct != nil && len(ct.Requires) > 0 {
+			// preconditions are assumptions about the caller / the reachable states: listed so that none stays hidden
+			var reqs []string
+			for _, cl := range ct.Requires {
+				reqs = append(reqs, cl.Text)
+			}
+			fu["requires"] = reqs
+		}
 		fu["obligations"] = len(groups)
 		fu["queries"] = len(r.Obls)
 		fu["paths"] = r.Paths
@@ -407,6 +415,13 @@ func cmdCheck(args []string) int {
 	for h := range havocs {
 		assumptions = append(assumptions, "havoc (sound over-approximation): "+h)
 	}
+	for _, r := range reports {
+		if ct := cc.cs.ByKey[r.Key]; ct != nil && isEntryPoint(r.Key) {
+			for _, cl := range ct.Requires {
+				assumptions = append(assumptions, "precondition of entry point "+shortFn(r.Key)+" (module invariant or state assumption, not checked at run time): "+cl.Text)
+			}
+		}
+	}
 	sort.Strings(assumptions)
 	cov := map[string]interface{}{
 		"obligations":              nObl,
@@ -510,6 +525,17 @@ var _ = strings.Join
 func hasString(xs []string, x string) bool {
 	for _, y := range xs {
 		if y == x {
+			return true
+		}
+	}
+	return false
+}
+
+// isEntryPoint: message servers, ante decorators, block hooks, genesis and gRPC handlers - functions called by the SDK,
+// whose preconditions nobody in /repo discharges.
+func isEntryPoint(key string) bool {
+	for _, m := range []string{"msgServer).", ").AnteHandle", ".BeginBlocker", ".InitGenesis", ".ExportGenesis", "Migrator).", "v3.Migrate"} {
+		if strings.Contains(key, m) {
 			return true
 		}
 	}
